@@ -599,7 +599,8 @@ func execOp(c *Ctx, line string) (out string) {
 	case "hist":
 		return histRun(c, line, f[1:])
 	}
-	return "bad-op"
+	// operations outside the twenty properties (EXTRA, DESIGN.md §9.5): only in a harness built with -tags extra
+	return execExtra(c, line, f)
 }
 
 type fixedSource struct {
